@@ -18,6 +18,13 @@ SHAPE_PRESERVING = {
     'scipy.fftpack.dst', 'numpy.nan_to_num',
 }
 
+def is_num(v):
+    return v.k in ('int', 'float', 'bool')
+
+
+UFUNC_BINOPS = {'add': ast.Add, 'subtract': ast.Sub, 'multiply': ast.Mult,
+                'true_divide': ast.Div, 'floor_divide': ast.FloorDiv,
+                'power': ast.Pow, 'mod': ast.Mod, 'remainder': ast.Mod}
 DRAW_METHODS = {'choice', 'normal', 'uniform', 'permutation', 'shuffle',
                 'integers', 'random', 'standard_normal', 'randn', 'rand',
                 'randint', 'random_sample', 'exponential', 'beta', 'gamma',
@@ -174,10 +181,23 @@ class CallsMixin:
                                   '%s operand origins %s' % (
                                       flag, sorted(map(repr, raw.org))),
                                   construct='%s=True' % flag)
+        if h is None and name.startswith('numpy.') and name.count('.') == 1 \
+                and short in UFUNC_BINOPS and len(pos) >= 2:
+            # function form of an arithmetic operator
+            def h(pos, kw, node, env, _op=UFUNC_BINOPS[short]):
+                a, b = pos[0], pos[1]
+                if not is_num(a) or not is_num(b):
+                    a = a if a.k == 'arr' or is_num(a) else self.as_arr(a)
+                    b = b if b.k == 'arr' or is_num(b) else self.as_arr(b)
+                return self.binop(_op(), a, b, node, env=env)
         if h is not None:
-            return h(pos, kw, node, env)
+            r = h(pos, kw, node, env)
+            self.out_write(r, kw, node, env)
+            return r
         if name in SHAPE_PRESERVING:
-            return self.elementwise(name, pos, kw, node, env)
+            r = self.elementwise(name, pos, kw, node, env)
+            self.out_write(r, kw, node, env)
+            return r
         if name.startswith('numpy.random.'):
             return self.global_random(name, pos, kw, node)
         if name in ('time.perf_counter',):
@@ -191,6 +211,20 @@ class CallsMixin:
         I.site('M-unmodelled', node, 'unknown', name, construct=name)
         t = TOP('ext:' + name)
         return t
+
+    def out_write(self, r, kw, node, env):
+        """``out=<target>``: the result is stored into the buffer of the
+        target expression (same object, new contents)."""
+        if 'out' not in kw or not isinstance(node, ast.Call) or env is None:
+            return
+        if kw['out'].k == 'none' or r is None or r.k != 'arr':
+            return
+        tn = None
+        for k_ in node.keywords:
+            if k_.arg == 'out':
+                tn = k_.value
+        if tn is not None:
+            self.I.write_through(tn, r, env, node)
 
     def _elem_of(self, v):
         items, elem, cnt = self.I.iter_model(v, None)
@@ -735,6 +769,13 @@ class CallsMixin:
             self.site('S-einsum', node, 'violation',
                       '%d subscripts for %d operands' % (len(terms), len(ops)))
             return ARR(None, 'f')
+        if any(o.dims is not None and len(o.dims) == 3 for o in ops):
+            # typestates of the contracted TT cores (read by the O-pivot rules)
+            self.site('O-contract', node, 'ok', '', facts={
+                'orth': [o.orth for o in ops],
+                'ndim': [len(o.dims) if o.dims is not None else None
+                         for o in ops],
+                'note': [o.note for o in ops]})
         letters = {}
         ell = None
         status = 'ok'
@@ -1025,6 +1066,15 @@ class CallsMixin:
             r.note = 'stacked'      # rows of several blocks: may repeat
         return r
 
+    def n_dstack(self, pos, kw, node, env):
+        seq = pos[0] if pos else TOP()
+        if seq.k in ('list', 'tuple') and seq.items is not None and \
+                all(x.k == 'arr' and x.dims is not None and len(x.dims) == 3
+                    for x in seq.items):
+            return self._concat(seq, 2, node, 'dstack')
+        self.site('S-concat', node, 'unknown', 'dstack of non 3-d operands')
+        return ARR(None)
+
     def n_stack(self, pos, kw, node, env):
         return self.as_arr(pos[0]) if pos else ARR(None)
 
@@ -1067,6 +1117,18 @@ class CallsMixin:
         if not dims:
             return FLOAT(taint=a.taint) if (dt or a.dt) != 'i' else INT()
         return r
+
+    def red_kind(self, r, aa, fname):
+        """What a full reduction measures: the largest modulus only for a
+        max over |x|."""
+        if r.k == 'arr' or not fname:
+            return
+        if fname in ('max', 'amax'):
+            r.red = 'maxmod' if aa.note == 'abs' else (
+                'max-signed' if aa.note in (None, 'input') and
+                not aa.nonneg else None)
+        elif fname in ('min', 'amin', 'mean', 'sum', 'median', 'prod'):
+            r.red = fname
 
     def _red(self, pos, kw, node, env, **k):
         a = pos[0] if pos else TOP()
@@ -1124,6 +1186,7 @@ class CallsMixin:
             r.nonlin = aa.nonlin
         fname_ = getattr(getattr(node, 'func', None), 'attr', '') or \
             getattr(getattr(node, 'func', None), 'id', '')
+        self.red_kind(r, aa, fname_)
         ax_ = self.axis_val(self.kwarg(pos, kw, 1, 'axis'))
         if fname_ == 'sum' and aa.cnt is not None and aa.dims is not None \
                 and isinstance(ax_, int) and -len(aa.dims) <= ax_ < len(aa.dims) \
@@ -1190,6 +1253,9 @@ class CallsMixin:
         if axv is None or axv.k == 'none':
             r.note = 'norm'
             r.src = a
+            ordv = self.kwarg(pos, kw, 1, 'ord')
+            if r.k != 'arr' and (ordv is None or ordv.k == 'none'):
+                r.red = 'norm'      # the Frobenius / 2-norm
         return r
 
     # ------------------------------------------------------------------
@@ -1260,6 +1326,9 @@ class CallsMixin:
         elif short in ('abs', 'absolute', 'square'):
             r.nonneg = True
             r.nonlin = True
+            if short != 'square':
+                r.note = 'abs'
+                r.rel = ('absof', v if v.k == 'arr' else a)
         elif short == 'sqrt':
             r.dt = 'f'
             if a.lg is not None:
@@ -1361,6 +1430,10 @@ class CallsMixin:
                     safe, why = True, 'guarded by (%s) is %s' % (fact, pol)
                     break
         self.site('G-log', node, 'ok' if safe else 'unknown', why)
+        red = getattr(v, 'red', None)
+        self.site('P-maxmod', node, 'ok' if red == 'maxmod' else
+                  ('violation' if red else 'unknown'),
+                  'the exponent is taken from %s' % (red or 'an untracked value'))
 
     def n_divide(self, pos, kw, node, env):
         a, b = pos[0], pos[1]
@@ -1405,7 +1478,18 @@ class CallsMixin:
 
     def n_clip(self, pos, kw, node, env):
         a = self.as_arr(pos[0])
-        return a.copy(org=frozenset(), orth=None, nonlin=True)
+        r = a.copy(org=frozenset(), orth=None, nonlin=True)
+        lo = self.kwarg(pos, kw, 1, 'a_min')
+        if lo is None:
+            lo = kw.get('min')
+        if lo is not None and lo.has_const() and \
+                isinstance(lo.c, (int, float)) and lo.c >= 0:
+            r.nonneg = True
+        elif lo is None or lo.k == 'none':
+            r.nonneg = bool(a.nonneg)
+        else:
+            r.nonneg = False
+        return r
 
     def n_where(self, pos, kw, node, env):
         if len(pos) == 1:
@@ -1450,6 +1534,17 @@ class CallsMixin:
         r = ARR(tuple(d), a.dt, nonneg=a.nonneg, lo=self.lo_of(a))
         if isinstance(a.delta, tuple) and ax % len(d) not in a.delta:
             r.delta = a.delta
+        # layout: every element is repeated rp times in a row -> the repeat
+        # counter runs fastest on that axis (as kron(a, ones(rp)))
+        from .layout import _fac
+        axn = ax % len(d)
+        fa = _fac(a, axn)
+        if rp is not None and fa is not None and all(
+                x is not None for x in a.dims):
+            lay = [(_fac(a, i) if a.lay is not None and a.lay[i] is not None
+                    else None) for i in range(len(d))]
+            lay[axn] = ((rp,) if rp.as_int() != 1 else ()) + tuple(fa)
+            r.lay = tuple(lay)
         return r
 
     def n_tile(self, pos, kw, node, env):
@@ -1469,6 +1564,27 @@ class CallsMixin:
             if rp[i] is not None and rp[j] is not None and \
                     rp[i].as_int() == 1 and rp[j].as_int() == 1:
                 r.delta = (i, j)
+        # layout: whole copies are laid one after the other -> the index of a
+        # runs fastest, the copy counter slowest (as kron(ones(rp), a))
+        from .layout import _fac
+        if all(x is not None for x in da) and all(x is not None for x in rp):
+            off = n - len(a.dims)
+            lay = []
+            known = False
+            for i in range(n):
+                fa = _fac(a, i - off) if i >= off else ()
+                if fa is None:
+                    lay.append(None)
+                    continue
+                if rp[i].as_int() == 1:
+                    lay.append(tuple(fa) if (a.lay is not None and i >= off
+                                             and a.lay[i - off] is not None)
+                               else None)
+                else:
+                    lay.append(tuple(fa) + (rp[i],))
+                    known = True
+            if known:
+                r.lay = tuple(lay)
         return r
 
     def n_diag(self, pos, kw, node, env):
